@@ -1,6 +1,6 @@
 (* C07 — attribute values decode to the right type, value, sign and constant domain. *)
-From Coq Require Import ZArith NArith List Bool.
-From Dwgrep Require Import Atval AtvalProofs.
+From Coq Require Import ZArith NArith List Bool Lia.
+From Dwgrep Require Import Atval AtvalProofs CovModel Ranges RangesProofs.
 Import ListNotations.
 Local Open Scope Z_scope.
 
@@ -47,7 +47,23 @@ Theorem C07_discr_value_is_error : forall w bits c, at_value AT_discr_value (RDa
 Proof. exact discr_value_is_error. Qed.
 Theorem C07_unknown_form_is_error : forall name c, at_value name ROther c = AErr.
 Proof. exact unknown_form_is_error. Qed.
+(* DW_AT_ranges: the address set holds exactly the addresses of the stored ranges (any number of them, in any
+   order, overlapping or not, empty ones included); an empty entry neither adds anything nor ends the list *)
+Theorem C07_ranges_denote_stored_ranges : forall rs, (forall r, In r rs -> proper r) ->
+  CovM.Inv (RangesM.die_ranges rs) /\ forall x, CovM.mem (RangesM.die_ranges rs) x <-> exists r, In r rs /\ fst r <= x < snd r.
+Proof. exact die_ranges_ok. Qed.
+Theorem C07_empty_range_entry_is_skipped : forall pre a post, (forall r, In r (pre ++ (a, a) :: post) -> proper r) ->
+  forall x, CovM.mem (RangesM.die_ranges (pre ++ (a, a) :: post)) x <-> CovM.mem (RangesM.die_ranges (pre ++ post)) x.
+Proof. exact empty_entry_is_skipped. Qed.
+Example C07_ranges_nonvacuous :
+  RangesM.die_ranges [(4096, 4112); (1, 1); (8192, 8256); (4100, 4120)] = [(4096, 24); (8192, 64)]
+  /\ (forall r, In r [(4096, 4112); (1, 1); (8192, 8256); (4100, 4120)] -> proper r).
+Proof. split; [vm_compute; reflexivity|]. intros r H. cbn [In] in H. unfold proper, CovM.TOP.
+  repeat (destruct H as [<-|H]; [cbn [fst snd]; lia|]). destruct H. Qed.
+
 Print Assumptions C07_sext_twos_complement.
+Print Assumptions C07_ranges_denote_stored_ranges.
+Print Assumptions C07_empty_range_entry_is_skipped.
 Print Assumptions C07_sext_unique.
 Print Assumptions C07_const_value_signed.
 Print Assumptions C07_const_value_unsigned.
